@@ -35,13 +35,19 @@ type case29 struct {
 	NP         int        `json:"np"`
 	Fields     []entry29  `json:"fields"`
 	Perms      []string   `json:"perms"`
-	Link       bool       `json:"link"`
-	Ind        []string   `json:"ind"` // entries stored as indirect objects: perms | acro | fields | kids
-	SF         int        `json:"sf"`  // /SigFlags of a document without signature fields (-1: absent)
+	Oth        string     `json:"oth"`    // name of the configuration of other annotations
+	Others     []other29  `json:"others"` // the other annotations: page + "subtype:id" (id i..: indirect object, d..: direct dictionary)
+	Ind        []string   `json:"ind"`    // entries stored as indirect objects: perms | acro | fields | kids
+	SF         int        `json:"sf"`     // /SigFlags of a document without signature fields (-1: absent)
 	Outcome    string     `json:"outcome"`
 	SigFields  []string   `json:"sigfields"`
 	KeepFields []string   `json:"keepfields"`
 	KeepAnnots [][]string `json:"keepannots"`
+}
+
+type other29 struct {
+	Pg   int    `json:"pg"`
+	Name string `json:"name"`
 }
 
 type mism29 struct {
@@ -154,17 +160,38 @@ func build29(c case29) []byte {
 			top = append(top, n)
 		}
 	}
-	if c.Link {
-		n := d.Add("<< /Type /Annot /Subtype /Link /Rect [300 300 360 320] /Border [0 0 0] /A << /S /URI /URI (http://example.com/) >> >>")
-		annots[1] = append(annots[1], n)
+	// other annotations: direct dictionaries go in front of the widgets, indirect ones behind them
+	front := make([][]string, c.NP+1)
+	back := make([][]string, c.NP+1)
+	for k, o := range c.Others {
+		parts := strings.SplitN(o.Name, ":", 2)
+		if len(parts) != 2 || o.Pg < 1 || o.Pg > c.NP {
+			h.Die("bad other annotation %+v", o)
+		}
+		r := fmt.Sprintf("[%d %d %d %d]", 300, 300+30*k, 360, 320+30*k)
+		body := ""
+		switch parts[0] {
+		case "link":
+			body = fmt.Sprintf("<< /Type /Annot /Subtype /Link /NM (%s) /Rect %s /Border [0 0 0] /A << /S /URI /URI (http://example.com/) >> >>", parts[1], r)
+		case "text":
+			body = fmt.Sprintf("<< /Type /Annot /Subtype /Text /NM (%s) /Rect %s /Contents (note %s) >>", parts[1], r, parts[1])
+		default:
+			h.Die("unknown annotation subtype %s", parts[0])
+		}
+		if strings.HasPrefix(parts[1], "i") {
+			back[o.Pg] = append(back[o.Pg], fmt.Sprintf("%d 0 R", d.Add(body)))
+		} else {
+			front[o.Pg] = append(front[o.Pg], body)
+		}
 	}
 	for p := 1; p <= c.NP; p++ {
-		if len(annots[p]) == 0 {
-			continue
-		}
-		var refs []string
+		refs := append([]string{}, front[p]...)
 		for _, n := range annots[p] {
 			refs = append(refs, fmt.Sprintf("%d 0 R", n))
+		}
+		refs = append(refs, back[p]...)
+		if len(refs) == 0 {
+			continue
 		}
 		d.Set(page(p), strings.TrimSuffix(d.Objs[page(p)-1], " >>")+" /Annots ["+strings.Join(refs, " ")+"] >>")
 	}
@@ -340,7 +367,12 @@ func project29(path string, pageDigest bool) (*post29, error) {
 							an = append(an, name)
 						}
 					} else {
-						an = append(an, strings.ToLower(st))
+						// every other entry of /Annots, indirect reference or direct dictionary: subtype[:name]
+						nm := strings.ToLower(st)
+						if sl := ad.StringLiteralEntry("NM"); sl != nil {
+							nm += ":" + sl.Value()
+						}
+						an = append(an, nm)
 					}
 				}
 			}
@@ -395,6 +427,43 @@ func countSigDicts(d types.Dict, depth int) int {
 		}
 	}
 	return n
+}
+
+// annotDiffKind names what differs between the expected and the actual other annotations of a page:
+// lost/extra x direct (inline dictionary) / indirect (reference) / widget (of a non-signature field).
+func annotDiffKind(want, got []string) string {
+	cnt := map[string]int{}
+	for _, w := range want {
+		cnt[w]++
+	}
+	for _, g := range got {
+		cnt[g]--
+	}
+	kinds := map[string]bool{}
+	for n, k := range cnt {
+		if k == 0 {
+			continue
+		}
+		form := "widget"
+		if i := strings.Index(n, ":"); i >= 0 && i+1 < len(n) {
+			if n[i+1] == 'd' {
+				form = "direct"
+			} else {
+				form = "indirect"
+			}
+		}
+		if k > 0 {
+			kinds["lost:"+form] = true
+		} else {
+			kinds["extra:"+form] = true
+		}
+	}
+	var ks []string
+	for k := range kinds {
+		ks = append(ks, k)
+	}
+	sort.Strings(ks)
+	return strings.Join(ks, ",")
 }
 
 func sortedCopy(s []string) []string {
@@ -631,7 +700,7 @@ func runCase29(c case29) []mism29 {
 			got = p.Annots[i]
 		}
 		if !eqS(got, sortedCopy(c.KeepAnnots[i])) {
-			fail("annot-changed|"+sk, fmt.Sprintf("page %d: other annotations expected %v, got %v (%s)", i+1, sortedCopy(c.KeepAnnots[i]), got, sk), p)
+			fail("annot-changed|"+annotDiffKind(sortedCopy(c.KeepAnnots[i]), got), fmt.Sprintf("page %d: other annotations expected %v, got %v (fields [%s])", i+1, sortedCopy(c.KeepAnnots[i]), got, sk), p)
 			break
 		}
 	}
@@ -751,7 +820,7 @@ func runC29() {
 			nosig++
 		} else {
 			fj, _ := json.Marshal(c.Fields)
-			nontrivial[string(fj)+"|"+strings.Join(sortedCopy(c.Perms), "+")+fmt.Sprint(c.Link, c.NP, sortedCopy(c.Ind), c.SF)] = true
+			nontrivial[string(fj)+"|"+strings.Join(sortedCopy(c.Perms), "+")+fmt.Sprint(c.Oth, c.NP, sortedCopy(c.Ind), c.SF)] = true
 		}
 		put(runCase29(c))
 	}
